@@ -631,7 +631,7 @@ def _exhaustive(prop, rng, nmax, orders):
 
 def generate(prop, rng, tier):
     if prop == "C16":
-        count = {"quick": 1100, "thorough": 14000, "search": 3000}[tier]
+        count = {"quick": 1700, "thorough": 24000, "search": 5000}[tier]
         if tier == "thorough":
             yield from _exhaustive(prop, rng, 4, 3)
         else:
@@ -640,7 +640,7 @@ def generate(prop, rng, tier):
             c = gen_dag(rng, nmax=7 if i % 3 else 6)
             yield c["stratum"], c
         return
-    count = {"quick": 650, "thorough": 9000, "search": 2000}[tier]
+    count = {"quick": 850, "thorough": 12000, "search": 3000}[tier]
     if tier == "thorough":
         yield from _exhaustive(prop, rng, 4, 3)
     else:
@@ -772,4 +772,13 @@ def trusted_base(prop):
 def partial_clauses(prop):
     if prop == "C16":
         return []
-    return ["C17_roundtrip_dict / C17_roundtrip_df / C17_cycle_refused: evaluated on every implementation output by prop_C17, not proved of the model"]
+    return ["C17_roundtrip_dict / C17_roundtrip_df carry the guard that the exported keys of a node are pairwise distinct "
+            "(dict: and not one of parent/parents/children); integer columns with missing values come back as floats "
+            "from pandas and are read as equal to the ints (1.0 == 1)",
+            "the single-node DAG (no edge) is outside the export theorems: all three exports of it are empty, as documented"]
+
+
+def assumptions(prop):
+    if prop == "C16":
+        return ["distinct node names and weak connectivity for C16_iter_complete; acyclic + mutually consistent parents/children lists for the queries"]
+    return ["weakly connected acyclic DAG with distinct names and at least one edge for the export / round-trip theorems"]
